@@ -1020,8 +1020,13 @@ class list_t(object):
                     if int(f.get_val()) == val:
                         return True
             elif self.is_scalar:
+                # Compare with the value that indexing and iteration return (a 
+                # signed element may be held in either representation)
                 for f in model.field_l:
-                    if int(f.get_val()) == int(lhs):
+                    v = int(f.get_val()) & self.mask
+                    if self.t.is_signed and (v & (1 << (self.t.width-1))) != 0:
+                        v -= (1 << self.t.width)
+                    if v == int(lhs):
                         return True
             else:
                 return lhs in self.backing_arr
